@@ -33,6 +33,11 @@ type c08Case struct {
 
 func genC08(t *rapid.T) c08Case {
 	c := c08Case{Cfg: genLimitCfg(t, []string{"vegas", "gradient", "gradient2"}, false)}
+	c.Cfg.Listener = rapid.IntRange(0, 2).Draw(t, "withListener") == 0
+	if rapid.IntRange(0, 3).Draw(t, "behindTraced") == 0 {
+		// the algorithm behind the traced wrapper (a pass-through: every sample must reach it unchanged)
+		c.Cfg.Traced, c.Cfg.TraceDebug = true, rapid.Bool().Draw(t, "traceDebug")
+	}
 	if c.Cfg.Algo == "vegas" && c.Cfg.Initial > c.Cfg.Max {
 		// Vegas only: with the estimate above the ceiling its "no change" branch keeps the estimate
 		// while the "grow" branch clamps it down to the maximum. Domain decision (DESIGN 6). Gradient
